@@ -248,8 +248,10 @@ func NewLogger(filename string, rule RotateRule, compress bool) (*RotateLogger, 
 
 // Write 将 data 写入轮换日志。
 func (l *RotateLogger) Write(data []byte) (int, error) {
+	// 写入由后台协程异步完成，而 io.Writer 的调用方（如 fmt.Fprint）在 Write 返回后即可复用 data，必须先复制一份
+	bs := append([]byte(nil), data...)
 	select {
-	case l.channel <- data:
+	case l.channel <- bs:
 		return len(data), nil
 	case <-l.done:
 		log.Println(string(data))
